@@ -44,7 +44,7 @@ func (w *World) runTxn(prog *TxnProg, exact bool) {
 	w.txns[tid] = mt
 	w.stats.Txns++
 	x := &txnCtx{w: w, c: w.primary, mt: mt, checkReads: true, exact: exact, abort: prog.Abort}
-	err := w.primary.Query(func(txn *column.Txn) error {
+	err := queryRecover(w.primary, func(txn *column.Txn) error {
 		x.txn = txn
 		for i := range prog.Ops {
 			if w.stopped() {
@@ -58,6 +58,10 @@ func (w *World) runTxn(prog *TxnProg, exact bool) {
 		}
 		if w.stopped() {
 			return errStop
+		}
+		if prog.Abort && prog.Panic && w.viol == nil {
+			w.stats.fault("client-panic-in-transaction")
+			panic(errClientPanic)
 		}
 		if prog.Abort {
 			return errAbort
@@ -96,6 +100,23 @@ func (w *World) runTxn(prog *TxnProg, exact bool) {
 	default:
 		w.fail(violation("query-result", "Query returned unexpected error %v", err))
 	}
+}
+
+var errClientPanic = errors.New("sim: client panic")
+
+// queryRecover runs a transaction and recovers the client's own panic (the fault "the
+// callback panics after queueing its changes"): the transaction then neither commits nor
+// rolls back, which for every observer must be the same as a rollback.
+func queryRecover(c *column.Collection, fn func(txn *column.Txn) error) (err error) {
+	defer func() {
+		if r := recover(); r != nil {
+			if r != errClientPanic {
+				panic(r)
+			}
+			err = errAbort
+		}
+	}()
+	return c.Query(fn)
 }
 
 // noteRollbackInsert records the trigger "a rolled-back transaction held a successful insert".
